@@ -91,7 +91,7 @@ func instLabel(m map[*types.TypeParam]types.Type) string {
 // generate obligations for the selected contracts
 func (w *World) generate(sel func(fc *FuncContract) bool) {
 	for _, fc := range w.prog.C.Funcs {
-		if !sel(fc) || fc.Trusted {
+		if !sel(fc) || fc.Trusted || fc.FrameOnly {
 			continue
 		}
 		for _, inst := range w.instantiations(fc.Name) {
